@@ -62,6 +62,7 @@ def check(ctx) -> None:
     ctx.rule("C24.roundtrip", "ABSINT: parse_assertion(assertion_to_cst(a)) renders to the same text as a, for one representative per assertion shape the exporter emits", floor=8)
     ctx.rule("C24.name-positions", "sibling agreement: every CST visitor of the deserializer that treats Names as references exempts the keyword of call arguments and the attribute name of attribute accesses, as its siblings do", floor=6)
     _name_positions(ctx, repo)
+    ctx.rule("C24.statements", "producer / consumer agreement: the exporter demotes any unused assignment to a bare expression statement, the parser's arm for expression statements refuses none", floor=2)
     ctx.rule("C24.functions", "the seed parser's per-function filter is `FunctionDef` + name prefix only; the exporter's function names satisfy the prefix", floor=3)
     ctx.rule("C24.imports", "normalize_sut_references handles the exporter's import idiom (import, from-import, alias = sys.modules[...])", floor=3)
 
@@ -169,6 +170,30 @@ def check(ctx) -> None:
         else:
             extra.append(t)
     ctx.check("C24.functions", loop, len(allowed) == 2 and not extra, f"parse_seed_module skips functions under `{'; '.join(extra)}`: exported tests of that form (e.g. the ones marked @pytest.mark.xfail(strict=True)) do not come back", what="per-function filter: FunctionDef + name prefix only")
+    # the keep condition of a parsed function: it has statements - either asked of the test case itself, or through a
+    # tally of dispositions that names every ADMITTED* member (exhaustiveness over the enum)
+    keep = next((s for s in ast.walk(loop) if isinstance(s, ast.If) and any(isinstance(c, ast.Call) and last_attr(c) == "append" and "testcases" in norm(c.func) for c in ast.walk(s))), None)
+    if keep is None:
+        raise AnalysisError("parse_seed_module: the statement that keeps a parsed test case was not found")
+    local_defs = {norm(n.targets[0]): n.value for n in ast.walk(loop) if isinstance(n, ast.Assign) and len(n.targets) == 1}
+
+    def slice_of(expr, seen=()):
+        out = [expr]
+        for x in ast.walk(expr):
+            if isinstance(x, ast.Name) and x.id in local_defs and x.id not in seen:
+                out += slice_of(local_defs[x.id], (*seen, x.id))
+        return out
+
+    sl = slice_of(keep.test)
+    members = {x.attr for e in sl for x in ast.walk(e) if isinstance(x, ast.Attribute) and norm(x.value).endswith("Disposition")}
+    disp = repo.cls(DES, "Disposition")
+    admitted_all = {norm(st.targets[0]) for st in disp.body if isinstance(st, ast.Assign) and norm(st.targets[0]).startswith("ADMITTED")}
+    if members:
+        missing = sorted(admitted_all - members)
+        ctx.check("C24.functions", keep, not missing, f"parse_seed_module keeps a parsed function only when a tally over {sorted(members)} is positive; the deserializer also admits statements as {missing}: an exported test function that consists of such statements only (e.g. `with pytest.raises(...): mod_.shutdown()`) is parsed and then discarded", what="keep condition covers every ADMITTED* disposition", stmt="[keep] dispositions")
+    else:
+        sized = any(isinstance(c, ast.Call) and (last_attr(c) in ("size", "statements") or norm(c.func) == "len") for e in sl for c in ast.walk(e))
+        ctx.check("C24.functions", keep, sized, f"parse_seed_module keeps a parsed function under `{norm(keep.test)[:80]}`, which does not ask whether the test case has statements", what="parsed function kept iff it has statements", stmt="[keep] size")
     pref = next((s for s in skips if "startswith" in norm(s.test)), None)
     prefixes = [c.value for c in ast.walk(pref.test) if isinstance(c, ast.Constant) and isinstance(c.value, str)] if pref is not None else []
     btf = repo.func(EX, "TestSuiteWriter._build_test_function")
@@ -177,6 +202,21 @@ def check(ctx) -> None:
     ctx.check("C24.functions", btf, ok, f"exporter names its functions {[norm(n) for n in names]}, the parser accepts prefixes {prefixes}", what="exported names f'test_{idx}' satisfy the parser's prefix")
     # decorated functions are emitted by the exporter
     ctx.check("C24.functions", btf, any(isinstance(n, ast.Call) and last_attr(n) == "_xfail_decorator" for n in own_nodes(btf)), "anchor: the exporter no longer emits decorated (xfail) test functions", what="exporter emits decorated functions (the parser must accept them)", stmt="[decorated]")
+
+    # ------------------------------------------------------------------ C24.statements
+    # producer / consumer agreement: remove_unused_variables demotes ANY unused assignment to a bare expression statement,
+    # so the parser has to admit an expression statement whatever the shape of its value
+    asm = repo.func(DES, "CstStatementDeserializer._admit_small_statement")
+    ctx.analysed(asm)
+    arms = [n for n in asm.body if isinstance(n, ast.If) and norm(n.test) == "isinstance(small, cst.Expr)"]
+    if len(arms) != 1:
+        raise AnalysisError("_admit_small_statement: the arm for expression statements was not found")
+    refusals = [r for r in ast.walk(arms[0]) if isinstance(r, ast.Return) and (r.value is None or norm(r.value) == "None")]
+    ctx.check("C24.statements", refusals[0] if refusals else arms[0], not refusals, f"_admit_small_statement refuses some expression statements (`{norm(parent(refusals[0]).test)[:70] if refusals and isinstance(parent(refusals[0]), ast.If) else ''}`): the exporter turns every assignment to an unused variable into a bare expression (`var_2 = var_1.history` is written as `var_1.history`), which is then dropped when the file is read back", what="every expression statement is admitted", stmt="[Expr arm]")
+    demote = repo.try_func("pynguin.testcase.testcase", "TestCase.remove_unused_variables")
+    if demote is None:
+        raise AnalysisError("anchor vanished: TestCase.remove_unused_variables")
+    ctx.check("C24.statements", demote, any(isinstance(c, ast.Call) and (norm(c.func) == "cst.Expr" or "expr" in (last_attr(c) or "").lower()) for c in ast.walk(demote)), "anchor: remove_unused_variables no longer builds bare expression statements", what="exporter demotes unused assignments to expression statements", stmt="[producer]")
 
     # ------------------------------------------------------------------ C24.imports
     norm_cls = repo.cls(DES, "_SutReferenceNormalizer")
